@@ -1,6 +1,7 @@
 """Shared pipeline of the object-lifecycle properties C01, C02, C03, C04, C17.
 Specs: spec/SpecValid.tla (validity against the frozen model), spec/Trace_ObjectModel.tla (clauses), spec/ObjectModel.tla (S1 design model)."""
 import copy
+import re
 import zlib
 import json
 import os
@@ -127,8 +128,30 @@ def shape_variants(g, key, rng, quick):
             sel = n
             if isinstance(x[n], list) and x[n]:
                 sel = rng.choice([n, n + ".[0]", n + ".[%d]" % (len(x[n]) - 1)])
+            elif isinstance(x[n], dict) and x[n]:
+                keys = [k for k in sorted(x[n]) if re.fullmatch(r"[a-z0-9_-]{1,250}", k)]
+                if keys and rng.random() < 0.7:
+                    sel = n + "." + rng.choice(keys)
             x["granular_markings"] = [{"selectors": [sel], "marking_ref": "marking-definition--" + g.uid()}]
             out.append(("marking:" + sel, x))
+        # lists of ten and more elements (index text is not in numeric order), every index markable
+        longs = [d for d in t["properties"] if d["name"] in base and d["kind"] == "list" and d["contained"]["kind"] in ("string", "openvocab", "reference") and "fixed" not in d
+                 and d["name"] not in ("granular_markings",)]
+        for d in (longs if not quick else rng.sample(longs, min(1, len(longs)))):
+            x = copy.deepcopy(base)
+            n = d["name"]
+            while len(x[n]) < 12:
+                x[n].append(g.value(dict(d["contained"], name=n), 0, t["type"] or ""))
+            x["granular_markings"] = [{"selectors": [n + ".[10]", n + ".[2]"], "marking_ref": "marking-definition--" + g.uid()},
+                                      {"selectors": [n + ".[11]"], "marking_ref": "marking-definition--" + g.uid()}]
+            out.append(("marking:long_list:" + n, x))
+        # a dictionary key that extends a sibling key with a hyphen, the sibling having children of its own
+        for d in t["properties"]:
+            if d["name"] in base and d["kind"] == "dictionary" and d["name"] == "additional_header_fields":
+                x = copy.deepcopy(base)
+                x[d["name"]] = {"received": ["a", "b"], "received-spf": "pass", "x": "1"}
+                x["granular_markings"] = [{"selectors": [d["name"] + ".received-spf", d["name"] + ".received.[1]", d["name"] + ".x"], "marking_ref": "marking-definition--" + g.uid()}]
+                out.append(("marking:hyphen_sibling:" + d["name"], x))
     return out
 
 
